@@ -189,6 +189,9 @@ func VerifC05_FinishTogether() {
 		return
 	}
 	verifReach("C05/together/started")
+	if verifTier() > 0 {
+		verifSchedBound(2) // thorough: every pair of preemptions
+	}
 	var barrier sync.WaitGroup
 	barrier.Add(2)
 	verifStepBarrier = &barrier
@@ -259,6 +262,9 @@ func VerifC05_Signals() {
 		return
 	}
 	verifReach("C05/signals/started")
+	if verifTier() > 0 {
+		verifSchedBound(2) // thorough: every pair of preemptions
+	}
 	v := nondetInt64("v")
 	toStep := make(chan schema.Input, 1)
 	toStep <- schema.Input{RunID: "r1", ID: "sig", InputData: map[string]any{"v": v}}
